@@ -480,6 +480,10 @@ func processCPU() time.Duration {
 	return time.Duration(ru.Utime.Nano() + ru.Stime.Nano())
 }
 
+// ProcessCPU is the CPU time (user + system) this process has used so far: a load-independent clock for cost
+// comparisons between two calls of one process.
+func ProcessCPU() time.Duration { return processCPU() }
+
 // Main is the worker entry point.
 func Main(prop string, run func(c *Ctx)) {
 	var (
